@@ -445,10 +445,197 @@ func (g *Graph) Loaders(pkgs map[string]bool) map[*ssa.Function]bool {
 				if callee == nil || !out[callee] {
 					continue
 				}
+				// a wrapper hands the loaded value on: it has a result of the loader's (non-error) result type
+				handsOn := false
+				if cr := callee.Signature.Results(); cr.Len() > 0 {
+					for i := 0; i < f.Signature.Results().Len(); i++ {
+						if types.Identical(f.Signature.Results().At(i).Type(), cr.At(0).Type()) {
+							handsOn = true
+						}
+					}
+				}
+				if !handsOn {
+					continue
+				}
 				for _, a := range ci.Common().Args[1:] {
 					if p, isParam := a.(*ssa.Parameter); isParam && p.Parent() == f && len(f.Params) > 0 && p != f.Params[0] {
 						out[f] = true
 						changed = true
+					}
+				}
+			}
+		}
+	}
+	return out
+}
+
+// ---------------------------------------------------------------------------
+// package-level state mutated through pointers
+// ---------------------------------------------------------------------------
+
+// derivedRoot follows address arithmetic, loads, field/element selections and phis from v back to the global or
+// parameter the storage it denotes hangs off (nil when it hangs off something local).
+func derivedRoot(v ssa.Value, depth int, seen map[ssa.Value]bool) ssa.Value {
+	if v == nil || depth > 12 || seen[v] {
+		return nil
+	}
+	seen[v] = true
+	switch x := v.(type) {
+	case *ssa.Global:
+		return x
+	case *ssa.Parameter:
+		return x
+	case *ssa.UnOp:
+		if x.Op == token.MUL {
+			return derivedRoot(x.X, depth+1, seen)
+		}
+	case *ssa.FieldAddr:
+		return derivedRoot(x.X, depth+1, seen)
+	case *ssa.IndexAddr:
+		return derivedRoot(x.X, depth+1, seen)
+	case *ssa.Field:
+		return derivedRoot(x.X, depth+1, seen)
+	case *ssa.Slice:
+		return derivedRoot(x.X, depth+1, seen)
+	case *ssa.ChangeType:
+		return derivedRoot(x.X, depth+1, seen)
+	case *ssa.Phi:
+		for _, e := range x.Edges {
+			if r := derivedRoot(e, depth+1, seen); r != nil {
+				return r
+			}
+		}
+	case *ssa.Alloc:
+		// a local cell holding a copy of a parameter (spilled receivers): maps and pointers inside the copy are shared
+		var src ssa.Value
+		n := 0
+		for _, ref := range *x.Referrers() {
+			if st, ok := ref.(*ssa.Store); ok && st.Addr == ssa.Value(x) {
+				n++
+				src = st.Val
+			}
+		}
+		if n == 1 {
+			if p, ok := src.(*ssa.Parameter); ok {
+				return p
+			}
+		}
+	}
+	return nil
+}
+
+// WritesThroughParam reports whether repository function f writes (field/element store, map update or delete) into storage
+// reachable from its i-th parameter, directly or by handing it on to another repository function that does.
+func (g *Graph) WritesThroughParam(f *ssa.Function, i int) bool {
+	if g.wtpMemo == nil {
+		g.wtpMemo = map[[2]interface{}]int{}
+	}
+	key := [2]interface{}{f, i}
+	if v, ok := g.wtpMemo[key]; ok {
+		return v == 1
+	}
+	g.wtpMemo[key] = 0 // in progress / false
+	if i >= len(f.Params) || len(f.Blocks) == 0 {
+		return false
+	}
+	p := ssa.Value(f.Params[i])
+	root := func(v ssa.Value) bool { return derivedRoot(v, 0, map[ssa.Value]bool{}) == p }
+	res := false
+	for _, b := range f.Blocks {
+		for _, ins := range b.Instrs {
+			switch x := ins.(type) {
+			case *ssa.Store:
+				if _, isAlloc := x.Addr.(*ssa.Alloc); !isAlloc && root(x.Addr) {
+					res = true
+				}
+			case *ssa.MapUpdate:
+				if root(x.Map) {
+					res = true
+				}
+			case ssa.CallInstruction:
+				cc := x.Common()
+				if bi, ok := cc.Value.(*ssa.Builtin); ok {
+					if (bi.Name() == "delete" || bi.Name() == "copy" || bi.Name() == "clear") && len(cc.Args) > 0 && root(cc.Args[0]) {
+						res = true
+					}
+					continue
+				}
+				callee := cc.StaticCallee()
+				if callee == nil || !g.repoSet[callee] {
+					continue
+				}
+				for j, a := range cc.Args {
+					if root(a) && g.WritesThroughParam(callee, j) {
+						res = true
+					}
+				}
+			}
+		}
+	}
+	if res {
+		g.wtpMemo[key] = 1
+	}
+	return res
+}
+
+// GlobalMutation is one place outside package initialisation where storage hanging off a package-level variable is written.
+type GlobalMutation struct {
+	Fn     *ssa.Function
+	Ins    ssa.Instruction
+	Global *ssa.Global
+	What   string
+}
+
+// GlobalMutations lists the writes to package-level state of the given packages outside init: direct stores / map updates,
+// and calls that hand (part of) a package-level variable to a repository function that writes through that parameter.
+func (g *Graph) GlobalMutations(pkgs map[string]bool) []GlobalMutation {
+	var out []GlobalMutation
+	for _, fn := range g.Funcs() {
+		rel, ok := g.P.PkgOf(fn)
+		if !ok || !pkgs[rel] || g.P.IsGenerated(fn.Pos()) {
+			continue
+		}
+		if fn.Name() == "init" || strings.HasPrefix(fn.Name(), "init#") || (fn.Parent() != nil && fn.Parent().Name() == "init") {
+			continue
+		}
+		glob := func(v ssa.Value) *ssa.Global {
+			gl, _ := derivedRoot(v, 0, map[ssa.Value]bool{}).(*ssa.Global)
+			if gl != nil && gl.Pkg != nil {
+				if _, isRepo := g.P.Repo[gl.Pkg.Pkg.Path()]; !isRepo {
+					return nil
+				}
+			}
+			return gl
+		}
+		for _, b := range fn.Blocks {
+			for _, ins := range b.Instrs {
+				switch x := ins.(type) {
+				case *ssa.Store:
+					if gl := glob(x.Addr); gl != nil {
+						out = append(out, GlobalMutation{fn, ins, gl, "store"})
+					}
+				case *ssa.MapUpdate:
+					if gl := glob(x.Map); gl != nil {
+						out = append(out, GlobalMutation{fn, ins, gl, "map update"})
+					}
+				case ssa.CallInstruction:
+					cc := x.Common()
+					if bi, ok := cc.Value.(*ssa.Builtin); ok {
+						if (bi.Name() == "delete" || bi.Name() == "copy" || bi.Name() == "clear") && len(cc.Args) > 0 {
+							if gl := glob(cc.Args[0]); gl != nil {
+								out = append(out, GlobalMutation{fn, ins, gl, bi.Name()})
+							}
+						}
+						continue
+					}
+					callee := cc.StaticCallee()
+					if callee == nil || !g.repoSet[callee] {
+						continue
+					}
+					for j, a := range cc.Args {
+						if gl := glob(a); gl != nil && g.WritesThroughParam(callee, j) {
+							out = append(out, GlobalMutation{fn, ins, gl, "call of " + FuncName(callee) + ", which writes through that argument"})
+						}
 					}
 				}
 			}
